@@ -6,7 +6,6 @@ import (
 	"time"
 
 	dtpb "github.com/google/fhir/go/proto/google/fhir/proto/r4/core/datatypes_go_proto"
-	"github.com/shopspring/decimal"
 	"github.com/verily-src/fhirpath-go/internal/fhir"
 	"github.com/verily-src/fhirpath-go/internal/fhirconv"
 )
@@ -194,7 +193,11 @@ func (dt DateTime) normalized() time.Time {
 // error if input does not represent a valid time valued quantity.
 func (dt DateTime) Add(input Quantity) (DateTime, error) {
 	var result time.Time
-	value := int(decimal.Decimal(input.value).IntPart())
+	amount, err := input.wholeAmount()
+	if err != nil {
+		return DateTime{}, err
+	}
+	value := int(amount)
 	switch input.unit {
 	case "year", "years":
 		result = addYear(dt.dateTime, value)
@@ -215,7 +218,7 @@ func (dt DateTime) Add(input Quantity) (DateTime, error) {
 
 	// Reformat to truncate DateTime to initial precision, rounding down to
 	// highest precision value.
-	result, err := time.Parse(string(dt.l), result.Format(string(dt.l)))
+	result, err = time.Parse(string(dt.l), result.Format(string(dt.l)))
 	if err != nil {
 		return DateTime{}, err
 	}
@@ -246,7 +249,11 @@ func (dt DateTime) Sub(input Quantity) (DateTime, error) {
 
 	// Handles non-partial dates here.
 	var result time.Time
-	value := -int(decimal.Decimal(input.value).IntPart())
+	amount, err := input.wholeAmount()
+	if err != nil {
+		return DateTime{}, err
+	}
+	value := -int(amount)
 	switch input.unit {
 	case "year", "years":
 		result = addYear(dt.dateTime, value)
